@@ -96,7 +96,7 @@ Fixpoint ins (ns : list entry) (k : key) (v : val) : option (list entry * bool) 
 (* ---- insertUniqueIntoLeaf.  rn = "kOrig is a key of the NameMap m" (rename mode,
    the referring dicts accept the rename); rn=false covers m == nil / kOrig not in m.
    The Go loop has no bound; the model uses fuel S(length ns) and reports exhaustion
-   explicitly (IFuel); Proofs.v shows IFuel never happens. ---- *)
+   explicitly (IFuel); ProofsHistory.v (ins_unique_never_out_of_fuel) shows IFuel never happens. ---- *)
 Inductive ires :=
 | IUnchanged                                   (* (true, nil): duplicate kept as is *)
 | IDone (ns : list entry) (atend : bool) (k : key)
@@ -169,11 +169,13 @@ Fixpoint rm_names (ns : list entry) (k : key) : option (list entry) :=
       else option_map (cons (k', v)) (rm_names r k)
   end.
 
-(* result of Node.Remove: the node after the call, (empty, ok); RPanic = Go run-time panic *)
+(* result of Node.Remove: the node after the call, (empty, ok); RPanic = Go run-time panic
+   (never produced: Proofs show tremove n k <> RPanic for every tree) *)
 Inductive rres := RPanic | R (n : node) (empty ok : bool).
 
-(* ---- removeFromLeaf (+ removeSingleFromParent) ---- *)
-Definition remove_leaf (ns : list entry) (a b : key) (k : key) : rres :=
+(* ---- removeFromLeaf (+ removeSingleFromParent), the part after the len(n.Names) == 0 test.
+   The RPanic results (index into an empty slice) are unreachable once Names is non-empty. ---- *)
+Definition remove_leaf_names (ns : list entry) (a b : key) (k : key) : rres :=
   if kltb k a || kltb b k then R (Leaf ns a b) false false
   else match ns with
   | [_] => R (Leaf [] [] []) true true
@@ -199,6 +201,13 @@ Definition remove_leaf (ns : list entry) (a b : key) (k : key) : rres :=
          | Some l => R (Leaf l a b) false true
          | None => R (Leaf ns a b) false false
          end
+  end.
+
+(* removeFromLeaf: if len(n.Names) == 0 || keyLess(k, n.Kmin) || keyLess(n.Kmax, k) { return false, false, nil } *)
+Definition remove_leaf (ns : list entry) (a b : key) (k : key) : rres :=
+  match ns with
+  | [] => R (Leaf [] a b) false false
+  | _ => remove_leaf_names ns a b k
   end.
 
 (* outcome of the loop in removeFromKids *)
